@@ -171,7 +171,7 @@ func main() {
 	c := vlib.Start("C03")
 	var pts, states int64
 	worst := vlib.NewCounter()
-	N := vlib.Pick(c, 8, 12)
+	N := vlib.Pick(c, 8, 16)
 	ps := prims(c)
 	classes := map[string]bool{}
 	// ---------------- exactness ----------------
@@ -462,7 +462,7 @@ func main() {
 			}
 		}
 	}
-	L3, L2 := vlib.Pick(c, 9, 13), vlib.Pick(c, 21, 33)
+	L3, L2 := vlib.Pick(c, 9, 17), vlib.Pick(c, 21, 49)
 	done3 := c.ParFor(len(n3), func(i int) {
 		nd := n3[i]
 		if !nd.Lip {
